@@ -58,14 +58,14 @@ brk('c07_right_to_left', 'C07', OBJ, '''                        operators::SUBST
                             let right = Value::resolve(&call.args[1], ctx)?;
                             return Value::resolve(&call.args[0], ctx)? - right;
                         }''')
-brk('c07_extractor_no_advance', 'C07 C20', MAG, '''    let idx = ctx.arg_idx;
+brk('c07_extractor_no_advance', 'C07', MAG, '''    let idx = ctx.arg_idx;
     ctx.arg_idx += 1;
     ctx.resolve(Argument(idx))''', '''    let idx = ctx.arg_idx;
     if idx > 0 {
         ctx.arg_idx += 1;
     }
     ctx.resolve(Argument(idx))''')
-brk('c07_this_consumes_with_receiver', 'C07 C20', MAG, '''        if let Some(ref this) = ctx.this {
+brk('c07_this_consumes_with_receiver', 'C07', MAG, '''        if let Some(ref this) = ctx.this {
             Ok(This(T::from_value(this)?))''', '''        if let Some(ref this) = ctx.this {
             let this = this.clone();
             let _ = arg_value_from_context(ctx);
@@ -532,6 +532,195 @@ brk('c05_unsafe_append', 'C05', OBJ, '''                Arc::make_mut(&mut l).pu
                 Ok(Value::String(l))''', '''                unsafe { (*(Arc::as_ptr(&l) as *mut String)).push_str(&r) };
                 Ok(Value::String(l))''')
 
+
+# ---- neutral edits: behaviour-preserving refactors that must not raise any alarm
+ALLP = 'C01 C02 C04 C05 C06 C07 C08 C09 C10 C11 C12 C13 C14 C15 C16 C17 C18 C19 C20'
+neu('n_add_arms_reordered', 'C08 C02 C05 C15', OBJ, '''            (Value::Int(l), Value::Int(r)) => l
+                .checked_add(r)
+                .ok_or(ExecutionError::IntegerOverflow("add", l.into(), r.into()))
+                .map(Value::Int),
+
+            (Value::UInt(l), Value::UInt(r)) => l
+                .checked_add(r)
+                .ok_or(ExecutionError::IntegerOverflow("add", l.into(), r.into()))
+                .map(Value::UInt),
+
+            (Value::Float(l), Value::Float(r)) => Value::Float(l + r).into(),
+''', '''            (Value::Float(l), Value::Float(r)) => Value::Float(l + r).into(),
+
+            (Value::UInt(l), Value::UInt(r)) => l
+                .checked_add(r)
+                .ok_or(ExecutionError::IntegerOverflow("add", l.into(), r.into()))
+                .map(Value::UInt),
+
+            (Value::Int(l), Value::Int(r)) => l
+                .checked_add(r)
+                .ok_or(ExecutionError::IntegerOverflow("add", l.into(), r.into()))
+                .map(Value::Int),
+''')
+neu('n_less_locals_renamed', 'C09 C07 C06 C02 C19', OBJ, '''                        operators::LESS => {
+                            let left = Value::resolve(&call.args[0], ctx)?;
+                            let right = Value::resolve(&call.args[1], ctx)?;
+                            return Value::Bool(
+                                left.partial_cmp(&right)
+                                    .ok_or(ExecutionError::ValuesNotComparable(left, right))?
+                                    == Ordering::Less,''', '''                        operators::LESS => {
+                            let lhs = Value::resolve(&call.args[0], ctx)?;
+                            let rhs = Value::resolve(&call.args[1], ctx)?;
+                            return Value::Bool(
+                                lhs.partial_cmp(&rhs)
+                                    .ok_or(ExecutionError::ValuesNotComparable(lhs, rhs))?
+                                    == Ordering::Less,''')
+neu('n_unrelated_function_added', ALLP, FUN, '''pub fn bytes(value: Arc<String>) -> Result<Value> {''', '''/// Returns its argument unchanged.
+pub fn identity(value: Value) -> Result<Value> {
+    Ok(value)
+}
+
+pub fn bytes(value: Arc<String>) -> Result<Value> {''')
+neu('n_registrations_reordered', 'C20 C16 C05 C07 C02', CTXF, '''        ctx.add_function("size", functions::size);
+        ctx.add_function("max", functions::max);''', '''        ctx.add_function("max", functions::max);
+        ctx.add_function("size", functions::size);''')
+neu('n_and_branches_flipped', 'C06 C07 C02 C19 C09', OBJ, '''                            return if !left.to_bool() {
+                                Value::Bool(false)
+                            } else {
+                                let right = Value::resolve(&call.args[1], ctx)?;
+                                Value::Bool(right.to_bool())
+                            }
+                            .into();''', '''                            return if left.to_bool() {
+                                let right = Value::resolve(&call.args[1], ctx)?;
+                                Value::Bool(right.to_bool())
+                            } else {
+                                Value::Bool(false)
+                            }
+                            .into();''')
+neu('n_get_variable_if_let', 'C11 C19 C02 C05', CTXF, '''            Context::Child { variables, parent } => match variables.get(&name) {
+                Some(value) => Ok(value.clone()),
+                None => parent.get_variable(name),
+            },''', '''            Context::Child { variables, parent } => {
+                if let Some(value) = variables.get(&name) {
+                    Ok(value.clone())
+                } else {
+                    parent.get_variable(name)
+                }
+            }''')
+neu('n_references_order_changed', 'C19 C01', REF, '''                comp.iter_range._references(variables, functions);
+                comp.accu_init._references(variables, functions);
+                comp.loop_cond._references(variables, functions);
+                comp.loop_step._references(variables, functions);
+                comp.result._references(variables, functions);''', '''                comp.result._references(variables, functions);
+                comp.loop_step._references(variables, functions);
+                comp.loop_cond._references(variables, functions);
+                comp.accu_init._references(variables, functions);
+                comp.iter_range._references(variables, functions);''')
+neu('n_int_guard_reordered', 'C13 C02', FUN, '''            if v.is_nan() || v >= i64::MAX as f64 || v < i64::MIN as f64 {''', '''            if v < i64::MIN as f64 || v.is_nan() || v >= i64::MAX as f64 {''')
+neu('n_int_guard_positive_form', 'C13 C02', FUN, '''            if v.is_nan() || v >= i64::MAX as f64 || v < i64::MIN as f64 {
+                return Err(ftx.error("integer overflow"));
+            }
+            Value::Int(v as i64)''', '''            if v >= i64::MIN as f64 && v < i64::MAX as f64 {
+                Value::Int(v as i64)
+            } else {
+                return Err(ftx.error("integer overflow"));
+            }''')
+neu('n_escape_arms_reordered', 'C12 C01', PRS, '''                        'a' => '\\u{07}',
+                        'b' => '\\u{08}',
+                        'v' => '\\u{0B}',
+                        'f' => '\\u{0C}',
+                        'n' => '\\n',
+                        'r' => '\\r',
+                        't' => '\\t',
+                        '\\\\' => c2,''', '''                        't' => '\\t',
+                        'r' => '\\r',
+                        'n' => '\\n',
+                        'f' => '\\u{0C}',
+                        'v' => '\\u{0B}',
+                        'b' => '\\u{08}',
+                        'a' => '\\u{07}',
+                        '\\\\' => c2,''')
+neu('n_serialize_u8_direct', 'C17', SERF, '''    fn serialize_u8(self, v: u8) -> Result<Value> {
+        self.serialize_u64(u64::from(v))
+    }
+
+    fn serialize_u16(self, v: u16) -> Result<Value> {
+        self.serialize_u64(u64::from(v))
+    }
+
+    fn serialize_u32(self, v: u32) -> Result<Value> {
+        self.serialize_u64(u64::from(v))
+    }
+
+    fn serialize_u64(self, v: u64) -> Result<Value> {
+        Ok(Value::UInt(v))''', '''    fn serialize_u8(self, v: u8) -> Result<Value> {
+        Ok(Value::UInt(u64::from(v)))
+    }
+
+    fn serialize_u16(self, v: u16) -> Result<Value> {
+        self.serialize_u64(u64::from(v))
+    }
+
+    fn serialize_u32(self, v: u32) -> Result<Value> {
+        self.serialize_u64(u64::from(v))
+    }
+
+    fn serialize_u64(self, v: u64) -> Result<Value> {
+        Ok(Value::UInt(v))''')
+neu('n_all_expander_statements_reordered', 'C10 C04 C19 C01', MAC, '''    arguments.insert(0, helper.next_expr(Expr::Ident(result_binding.clone())));
+    let step = helper.next_expr(Expr::Call(CallExpr {
+        func_name: operators::LOGICAL_AND.to_string(),
+        target: None,
+        args: arguments,
+    }));
+
+    let result = helper.next_expr(Expr::Ident(result_binding.clone()));
+''', '''    let result = helper.next_expr(Expr::Ident(result_binding.clone()));
+    arguments.insert(0, helper.next_expr(Expr::Ident(result_binding.clone())));
+    let step = helper.next_expr(Expr::Call(CallExpr {
+        func_name: operators::LOGICAL_AND.to_string(),
+        target: None,
+        args: arguments,
+    }));
+''')
+neu('n_json_arms_reordered', 'C18', JSF, '''            Value::Int(i) => i.into(),
+            Value::UInt(u) => u.into(),
+            Value::Float(f) => f.into(),''', '''            Value::Float(f) => f.into(),
+            Value::UInt(u) => u.into(),
+            Value::Int(i) => i.into(),''')
+neu('n_units_two_letter_reordered', 'C15', DURF, '''        map(tag("ms"), |_| Unit::Millisecond),
+        map(tag("us"), |_| Unit::Microsecond),
+        map(tag("ns"), |_| Unit::Nanosecond),''', '''        map(tag("ns"), |_| Unit::Nanosecond),
+        map(tag("us"), |_| Unit::Microsecond),
+        map(tag("ms"), |_| Unit::Millisecond),''')
+neu('n_string_index_helper_extracted', 'C14 C02 C07 C06 C19', OBJ, '''                                (Value::String(str), Value::Int(idx)) => {
+                                    let start = idx as usize;
+                                    match start.checked_add(1).and_then(|end| str.get(start..end)) {
+                                        None => Ok(Value::Null),
+                                        Some(str) => Ok(Value::String(str.to_string().into())),
+                                    }
+                                }''', '''                                (Value::String(str), Value::Int(idx)) => index_string(&str, idx),''', OBJ, '''impl Value {
+    pub fn resolve_all(expr: &[Expression], ctx: &Context) -> ResolveResult {''', '''fn index_string(str: &str, idx: i64) -> ResolveResult {
+    let start = idx as usize;
+    match start.checked_add(1).and_then(|end| str.get(start..end)) {
+        None => Ok(Value::Null),
+        Some(str) => Ok(Value::String(str.to_string().into())),
+    }
+}
+
+impl Value {
+    pub fn resolve_all(expr: &[Expression], ctx: &Context) -> ResolveResult {''')
+neu('n_timestamp_accessor_let_binding', 'C16 C02', FUN, '''        Ok((this.hour() as i32).into())''', '''        let hour = this.hour();
+        Ok((hour as i32).into())''')
+neu('n_parse_error_check_as_match', 'C01', PAR, '''        if errors.is_empty() {
+            r.map_err(|e| ParseErrors { errors: vec![e] })
+        } else {''', '''        if !errors.is_empty() {''', PAR, '''                    .collect(),
+            })
+        }
+    }
+''', '''                    .collect(),
+            })
+        } else {
+            r.map_err(|e| ParseErrors { errors: vec![e] })
+        }
+    }
+''')
 
 def main():
     only = sys.argv[1:]
